@@ -30,11 +30,11 @@ for p in props:
 hooks = json.load(open(os.path.join(ROOT, 'tools', 'hooks.json')))
 m = {
     "version": 1,
-    "setup_cmd": "cd /verif/harness && CARGO_NET_OFFLINE=true cargo build --release --offline",
+    "setup_cmd": "cd /verif/harness && CARGO_NET_OFFLINE=true cargo build --release --offline && cd /verif/harness_nolog && CARGO_NET_OFFLINE=true CARGO_TARGET_DIR=/verif/harness_nolog/target cargo build --release --offline",
     "hooks": hooks,
     "engines": [{"name": "mtverif", "path": "/verif/harness", "serves_properties": sorted(CLAIMED), "kind_free_text": "Rust binary: proptest TestRunner over a choice tape (16 shards), independent oracles (union-find, exact rationals, brute-force Symanzik polynomials, own incomplete gamma), taint and double-double scalars, libFuzzer targets in harness/fuzz for the thorough tier"}],
     "checks": checks,
-    "not_applicable": [{"property_id": p['id'], "reason": "check not built yet (work in progress, see DESIGN.md)"} for p in props if p['id'] not in CLAIMED],
+    "not_applicable": [{"property_id": p['id'], "reason": "no check registered"} for p in props if p['id'] not in CLAIMED],
     "notes": "All checks: exit 0 = held, exit 1 + VIOLATION line = violated, exit 2 = harness/build problem or inconclusive. VERIF_SEED selects the proptest seed; every run is a pure function of (VERIF_SEED, tree). known_findings.json lists fixed/known findings.",
 }
 json.dump(m, open(os.path.join(ROOT, 'MANIFEST.json'), 'w'), indent=1)
